@@ -453,17 +453,19 @@ func (b *assignmentBuilder) isStructFieldAccessible(structNode bmodel.Node, leaf
 	if !util.IsStructType(structType) {
 		return false
 	}
-	if named, ok := structType.(*types.Named); ok {
-		return !b.isExternalPkg(named.Obj().Pkg()) || ast.IsExported(leafName)
-	}
-	// An anonymous struct type: its fields belong to the package that wrote it down,
-	// e.g. the package of the imported struct it is a member of.
+	// A field belongs to the package that wrote the struct type down, which for a local
+	// type defined over an imported struct (type Row domain.User) or for an anonymous
+	// struct inside an imported one is not the package of the type at hand.
 	if st, ok := structType.Underlying().(*types.Struct); ok {
 		for i := 0; i < st.NumFields(); i++ {
 			if field := st.Field(i); field.Name() == leafName {
 				return !b.isExternalPkg(field.Pkg()) || ast.IsExported(leafName)
 			}
 		}
+	}
+	// Not a field: a getter of the named type.
+	if named, ok := structType.(*types.Named); ok {
+		return !b.isExternalPkg(named.Obj().Pkg()) || ast.IsExported(leafName)
 	}
 	return true
 }
